@@ -472,13 +472,14 @@ s = std(contract(SCQ + "add_simplices_from", [("self", "net:SC"), ("ebunch_to_ad
 s.req("Closed", lambda c, A: SClosed(c, A.S0), ("C03",))
 s.ens("Closed", ("C03",), lambda c, A, R: SClosed(c, R.S))
 s.req("max_order-int-or-none", lambda c, A: z3.Or(A.max_order.term == c.NONE, c.is_int(A.max_order.term)), ("C03",))
-s.timeout_ms = 120000  # closure obligations with set-valued quantifiers
+s.timeout_ms = 40000  # closure obligations with set-valued quantifiers
+s.len_axioms = True  # card(content(x)) <= len(x) is instantiated where len() is taken (max_order bound)
 s.skip_ground_quick = True  # a 4-id universe cannot hold a simplex, its faces and their tuple ids: the ground pass is vacuous here
 s.loop("for idx, members in ebunch_to_add.items()", _asf_outer)
-s.loop("for members in faces", _asf_faces)
+s.loop("for members in faces", _asf_faces, forget=True)
 s.loop("while True", _asf_outer)
 s.loop("for n in members", _asf_inner)
-s.loop("for members in faces", _asf_faces)
+s.loop("for members in faces", _asf_faces, forget=True)
 s.ens_all("existing-kept", ("C04",), lambda c, A, R: only_added(c, R.S, A.S0))
 s.ens("max-order", ("C03",), lambda c, A, R: within_max_order(c, R.S, A.S0, A.max_order.term))
 for e_ in ("XGIError", "TypeError", "ValueError", "IndexError", "UnboundLocalError"):
